@@ -69,8 +69,9 @@ func roleOf(f *Frame, off int64) string {
 
 // CorruptCases enumerates corruptions of the final image. full=false: every
 // offset of the last three records, every frame header and record
-// tag/type/crc prefix, stride 7 elsewhere; full=true: every offset.
-func (r *Recording) CorruptCases(full bool, repls []string) []CorruptCase {
+// tag/type/crc prefix, every stride-th offset elsewhere; full=true: every
+// offset.
+func (r *Recording) CorruptCases(full bool, stride int, repls []string) []CorruptCase {
 	var out []CorruptCase
 	final := r.Steps[len(r.Steps)-1].Img
 	nf := len(r.Phys)
@@ -80,7 +81,7 @@ func (r *Recording) CorruptCases(full bool, repls []string) []CorruptCase {
 		dense := full || fi >= nf-3
 		for off := f.Off; off < f.End; off++ {
 			p := off - f.Off
-			if !dense && p >= 8+10 && (off%7) != 0 {
+			if !dense && p >= 8+10 && (off%int64(stride)) != 0 {
 				continue
 			}
 			for _, rp := range repls {
